@@ -390,17 +390,19 @@ def spec_to_code(ctx):
     ctx.cov['replay_outcome_agrees_with_implementation_layer'] = agree[1]
     ctx.cov['replay_outcome_differs_from_implementation_layer'] = agree[0]
     ctx.cov['replay_situations'] = stats
-    for k in ('gc_in_ok_statement', 'fail_after_gc'):
-        if not stats[k]:
-            raise core.MachineryError('vacuous replay: no model step with %s' % k)
     real14 = sum(1 for e in d.events if e['kind'] == 'err' and e['code'] == 14)
     ctx.cov['replay_real_out_of_string_space'] = real14
-    if not real14:
-        raise core.MachineryError('vacuous replay: the real interpreter never ran out of string space')
     for e in d.events[5:8]:
         ctx.sample({k: e[k] for k in ('stmt', 'kind', 'code', 'model_err', 'ae') if k in e})
     ns = validate(ctx, d, 'replay')
     ctx.cov['traces_validated_against_impl'] += ns
+    # vacuity guards (only meaningful when the replay itself was accepted)
+    if not ctx.violations:
+        for k in ('gc_in_ok_statement', 'fail_after_gc'):
+            if not stats[k]:
+                raise core.MachineryError('vacuous replay: no model step with %s' % k)
+        if not real14:
+            raise core.MachineryError('vacuous replay: the real interpreter never ran out of string space')
 
 
 # ---------------------------------------------------------------------------------------------------------------------
@@ -559,10 +561,10 @@ def code_to_spec(ctx):
     ctx.cov['history_fre_checks'] = sum(1 for e in evs if e['op'] == 'fre' and e['kind'] == 'ok')
     for e in (evs[10], evs[len(evs) // 2], evs[-1]):
         ctx.sample({k: e[k] for k in ('stmt', 'kind', 'code', 'ae', 'fre') if k in e})
-    if not ctx.cov['history_out_of_string_space'] or not ctx.cov['history_fre_checks']:
-        raise core.MachineryError('vacuous histories: no Out of string space / FRE event')
     ns = validate(ctx, d, 'history')
     ctx.cov['traces_validated_against_impl'] += ns
+    if not ctx.violations and (not ctx.cov['history_out_of_string_space'] or not ctx.cov['history_fre_checks']):
+        raise core.MachineryError('vacuous histories: no Out of string space / FRE event')
 
 
 def model_phases(ctx):
@@ -669,10 +671,10 @@ def program_histories(ctx):
     ctx.cov['program_fre_checks'] = sum(1 for e in evs if e['op'] == 'fre' and e['kind'] == 'ok')
     lits = sum(1 for e in evs if e.get('prog') and e['op'] == 'let' and e['e']['k'] == 'lit' and e['kind'] == 'ok')
     ctx.cov['program_literal_assignments'] = lits
-    if not lits or not ctx.cov['program_fre_checks']:
-        raise core.MachineryError('vacuous program histories')
     ns = validate(ctx, d, 'program')
     ctx.cov['traces_validated_against_impl'] += ns
+    if not ctx.violations and (not lits or not ctx.cov['program_fre_checks']):
+        raise core.MachineryError('vacuous program histories')
 
 
 def run(ctx):
